@@ -184,14 +184,18 @@ PROPS = {
         "of valid signed RFC 6492 / RFC 8181 messages; token-level mutations of the XML (attribute values, numbers, base64 bodies replaced by damaged DER / truncated / doubled, elements deleted or duplicated) re-signed under the registered identity so the handlers "
         "behind the signature check are reached; random bytes bare and under a valid signature; tree-level mutations of valid JSON bodies of the ROA, ASPA, BGPsec, add-child, update-child, add-parent, repository-contact and import routes "
         "(leaf replaced by out-of-range numbers, nulls, nested arrays or strings from a list of hostile notations, member dropped, element duplicated) decoded with krill's types and passed to the manager call behind the route (for ROAs also the dry-run analysis); "
-        "text notations (ROA payload, ASPA definition, resource sets, handles as path segments, router key names, URIs) glued from the same list; distinct by hash of the case JSON; non-trivial iff some mutated input got past the decoders into a handler",
-        "floors": {"__nontrivial__": 0.90, "rfc6492-xml:error": 0.50, "rfc8181-xml:error": 0.50, "rfc6492-xml:accepted": 0.30, "json-roa:error": 0.15, "json-roa:accepted": 0.10, "json-aspa:accepted": 0.10, "rfc6492-cms:error": 0.50},
-        "assumptions": ["requests enter through the manager calls behind the HTTP routes (CaManager::rfc6492, RepositoryManager::rfc8181, ca_routes_update, ...); the HTTP layer's own body-size limit and path splitting are not exercised",
+        "text notations (ROA payload, ASPA definition, resource sets, handles as path segments, router key names, URIs) glued from the same list. One case in five is an HTTP case instead: 20-70 (thorough 40-160) requests to the real daemon running in the worker (testbed mode, two CAs, one a child of the other, ROA and ASPA configured), "
+        "each derived from one of the 114 routes of /verif/routes.json: every placeholder segment filled with the valid name, a percent-encoded hostile string, a special segment (dot segments, encoded slashes and NULs, invalid percent escapes and UTF-8, numbers at and beyond the 32/64-bit limits, look-alike names) or a raw hostile string, "
+        "optionally an extra trailing segment and a query string; the body the route expects either valid, JSON-tree mutated, the RFC 8183 XML form token-mutated, random bytes, hostile text or absent, with five content types; sent as administrator (7/8) or without / with a garbage token, over TCP or the Unix socket; "
+        "distinct by hash of the case JSON; non-trivial iff some mutated input got past the decoders into a handler (HTTP cases: a mutated path behind the authorisation gate and a mutated body were both sent)",
+        "floors": {"__nontrivial__": 0.90, "rfc6492-xml:error": 0.50, "rfc8181-xml:error": 0.50, "rfc6492-xml:accepted": 0.30, "json-roa:error": 0.15, "json-roa:accepted": 0.10, "json-aspa:accepted": 0.10, "rfc6492-cms:error": 0.50, "http:mutated-path-behind-auth": 0.12, "http:mutated-body:refused": 0.12, "http:404": 0.12, "http:400": 0.12},
+        "assumptions": ["signed protocol messages and most JSON bodies enter through the manager calls behind the HTTP routes (CaManager::rfc6492, RepositoryManager::rfc8181, ca_routes_update, ...); the HTTP cases go through the real listener, request parser, path dispatch and handlers of the daemon",
+                        "in the HTTP cases a panic on any thread of the process is seen through the panic hook (counted), the daemon must answer /health afterwards, and 'unchanged' is judged on the configuration an administrator can read back (CA list, configured ROAs/ASPAs/router keys, parents, children with entitlements and identity, publishers), not on objects that background tasks issue",
                         "the harness is built like krill's release profile without overflow checks (wrapping arithmetic is not a panic in the shipped binary) but with unwinding so that a panic can be observed",
                         "process exits are observed through hook H-exit (commons/verif exit_point) and count like panics"],
-        "technique": "generator-driven fuzzing (proptest strategies for structured byte, XML-token and JSON-tree mutations of valid messages) with the oracle inside the target: catch_unwind + exit hook for 'no panic, no exit', and a configuration/content digest compared around every request that returned an error",
-        "level_text": "Exploration by structured mutation fuzzing in-process; tens of thousands of hostile inputs per quick run. Sampling, not proof; not coverage-guided.",
-        "level_note": "Trusted base: the manager entry points are what the HTTP handlers call.",
+        "technique": "generator-driven fuzzing (proptest strategies for structured byte, XML-token and JSON-tree mutations of valid messages) with the oracle inside the target: catch_unwind + exit hook for 'no panic, no exit', and a configuration/content digest compared around every request that returned an error; plus route-table-driven mutation of paths, queries and bodies against the real daemon over its sockets (panic hook, health probe, configuration digest)",
+        "level_text": "Exploration by structured mutation fuzzing in-process and over the daemon's sockets; tens of thousands of hostile inputs per quick run. Sampling, not proof; not coverage-guided.",
+        "level_note": "Trusted base: the manager entry points are what the HTTP handlers call; the hand-written HTTP client; the route table for the shape of paths and bodies.",
     },
     "C18": {
         "level": "exploration",
